@@ -1302,7 +1302,10 @@ int bufr_apply_tables2node
       BufrDescriptor  *cbm;
       int        ndx;
       int idp = cb->repl_rank;
-      if (idp <= 0)
+/*
+ * a marker beyond the last data present entry of the bitmap refers to nothing
+ */
+      if ((idp <= 0)||(idp > ddo->dpbm->nb_codes))
          {
          if (debug)
             {
@@ -1317,7 +1320,8 @@ int bufr_apply_tables2node
          if (ndx >= 0)
             {
             ndx = ddo->dpbm->index[ndx];
-            node1 = bufr_getnode_sequence( bsq, ndx );
+            node1 = (ndx >= 0) ? bufr_getnode_sequence( bsq, ndx ) : NULL;
+            if (node1 == NULL) return 0;
             cbm = (BufrDescriptor *)node1->data;
             if (cb->value)
                bufr_free_value( cb->value );
@@ -1343,13 +1347,16 @@ int bufr_apply_tables2node
 
       if (ddo->dpbm == NULL)
          ddo->dpbm = bufr_index_dpbm( ddo, bsq );
-      idx = ddo->dpbm->dp[idp-1];
+      idx = ((idp > 0)&&(idp <= ddo->dpbm->nb_codes)) ? ddo->dpbm->dp[idp-1] : -1;
       if (idx >= 0)
          {
-         ndx = ddo->dpbm->index[ddo->dpbm->dp[idp-1]];
-         node1 = bufr_getnode_sequence( bsq, ndx );
-         cbm = (BufrDescriptor *)node1->data;
-         cb->s_descriptor = cbm->descriptor;
+         ndx = ddo->dpbm->index[idx];
+         node1 = (ndx >= 0) ? bufr_getnode_sequence( bsq, ndx ) : NULL;
+         if (node1 != NULL)
+            {
+            cbm = (BufrDescriptor *)node1->data;
+            cb->s_descriptor = cbm->descriptor;
+            }
          }
       }
    else if (cb->descriptor == 236000)
